@@ -242,9 +242,14 @@ def gen_history(seed, tier, prop, kinds_allowed):
         if auto:
             # C16: mostly class sets of the 64 bucket, so that a 9-class set left behind by a refused first call would be too small
             top = r.choice(([8, 63, 40, 63, 20] if prop == 'C16' else [8, 8, 5, 63, 40]) + ([255, 100] if thorough else []))
+            bc = rng.stream(seed, 'bigclasses')
+            if bc.random() < 0.2:
+                top = bc.choice([255, 130, 200])        # class indexes that do not fit a signed byte / the 256-class set of a byte value
             scn['pool'] = list(range(top + 1))
         else:
             cl = r.choice(CLASS_POOL) if not scn.get('attack_layout') else list(range(9))
+            if not scn.get('attack_layout') and regime == 'exact' and rng.stream(seed, 'bigclasses2').random() < 0.08:
+                cl = list(range(256))
             scn['classes'] = cl
             if kind == 'mia' and r.random() < 0.6:
                 scn['pool'] = list(cl)              # MIA: mostly declared values only (what an undeclared value does there is C12's question;
@@ -515,7 +520,8 @@ def generate_c16(seed, tier):
         elif first and kind not in ('tstatic', 'tdpa', 'ttacc') and fr.random() < 0.35:
             # decoy geometry: the refused first batch has another trace length than the batches accepted later (nothing was accepted yet, so
             # the first accepted batch is free to define the length)
-            op.append('geom')
+            # ... and / or another layout of the intermediate values (words): (n, 4) <-> (n, 2, 2), twice the words, ...
+            op.append('geom' if kind in kinds.ONE_WORD else fr.choice(['geom', 'geomw', 'geomtw']))
         ops.insert(pos, op)
     if kind in ('tstatic', 'tdpa'):
         # object starts unbuilt when a not_built probe is first; 'build' op follows it
@@ -595,6 +601,18 @@ def _same(scn, adapter, A, B, force_bitwise=False):
         if not ok:
             return '%s differs (%s): maxdiff=%s a=%s b=%s' % (k, rule, compare.maxdiff(a, b), compare.describe(a), compare.describe(b))
     return None
+
+
+def _other_word_layout(da):
+    """The same rows with another layout of the intermediate values: never the shape the valid batches of the history have."""
+    n = da.shape[0]
+    flat = np.ascontiguousarray(da.reshape(n, -1))
+    W = flat.shape[1]
+    if da.ndim >= 3:
+        return flat if W % 3 else np.ascontiguousarray(np.concatenate([flat, flat[:, :1]], 1))     # (n, a, b) -> (n, a*b) or (n, a*b + 1)
+    if W % 2 == 0:
+        return np.ascontiguousarray(flat.reshape(n, 2, W // 2))                                      # (n, 2k) -> (n, 2, k)
+    return np.ascontiguousarray(np.concatenate([flat, flat, flat], 1).reshape(n, W, 3))             # (n, W) -> (n, W, 3)
 
 
 def _bad_args(scn, bk, tr, da):
@@ -855,8 +873,10 @@ def _execute_history(scn):
                 first = not accepted
                 src = data[a:b] % 8 if (len(op) > 4 and op[4] == 'low') else data[a:b]
                 tsrc = traces[a:b]
-                if len(op) > 4 and op[4] == 'geom' and first:
+                if len(op) > 4 and op[4] in ('geom', 'geomtw') and first:
                     tsrc = np.ascontiguousarray(np.concatenate([tsrc, tsrc, tsrc[:, :1]], axis=1))
+                if len(op) > 4 and op[4] in ('geomw', 'geomtw') and first:
+                    src = _other_word_layout(src)
                 bt, bd = _bad_args(scn, bk, tsrc, src)
                 before = subject.count()
                 if bk == 'lowmem':
